@@ -1,1 +1,180 @@
-import AnyioModel.Kernel.Step
+/-
+C01  Task group join: no child outlives its task group block.
+
+Property theorems only, on the kernel model (`AnyioModel.Kernel.{Types,Scope,Step}`); the
+invariant `GInv` and the case analysis of `step` are in `AnyioModel.Kernel.GroupInv`..`GroupInv6`,
+well-formedness `WF` in `AnyioModel.Kernel.WF`..`WF10`.  Every statement quantifies over all
+reachable states, i.e. over all finite event lists: any number of tasks, groups, nested scopes,
+any interleaving of the loop's cycles with API calls, cancellations from inside, outside, by
+deadline or native.
+
+Ghost fields used: `Group.spawned` (every task ever passed to `_spawn` for the group),
+`Group.exited` (`__aexit__` has returned or raised), `Task.doneCbRun` (`task_done` has run).
+-/
+import AnyioModel.Kernel.GroupInv6
+
+namespace AnyioModel.Kernel
+
+/-- The group invariant holds in every reachable state. -/
+theorem C01_invariant {st : State} (h : Reach st) : GInv st := ginv_reach h
+
+/-- Join: once `__aexit__` of group `g` has finished (returned, raised, or was cancelled), every
+task ever spawned into `g` (by `start_soon`/`create_task`/`start`, by whomever, whenever) is done,
+its `task_done` callback has run, and `_tasks` is empty. -/
+theorem C01_join {st : State} (h : Reach st) {g u : Nat} (hx : (st.groups g).exited = true)
+    (hu : u ∈ (st.groups g).spawned) :
+    (st.tasks u).st = .done ∧ (st.tasks u).doneCbRun = true ∧ (st.groups g).tasks = [] := by
+  have hi := ginv_reach h
+  have h3 := (hi.g3 g hx).1
+  rcases (hi.g2 g u hu).2 with hm | hd
+  · rw [h3] at hm; contradiction
+  · exact ⟨hd.1, hd.2, h3⟩
+
+/-- A task that is done is never resumed: its `__step` and `__wakeup` handles are not enabled
+(in any state, reachable or not). -/
+theorem C01_done_never_runs {st : State} {u : Nat} (hd : (st.tasks u).st = .done) :
+    step st (.run (.step u)) = none ∧ step st (.run (.wakeup u)) = none := by
+  constructor <;> (simp only [step]; split <;> simp [hd])
+
+/-- Done is final: a done task is done after every transition, with the same outcome; it is not
+the running task before or after, and the transition was not a resumption of it. -/
+theorem C01_done_is_final {st st' : State} {e : Ev} {o : Out} (h : Reach st) {u : Nat}
+    (hd : (st.tasks u).st = .done) (hs : step st e = some (st', o)) :
+    (st'.tasks u).st = .done ∧ (st'.tasks u).outcome = (st.tasks u).outcome ∧
+      st.running ≠ some u ∧ st'.running ≠ some u ∧
+      e ≠ .run (.step u) ∧ e ≠ .run (.wakeup u) := by
+  have w := wf_reach h
+  have w' := wf_reach (Reachable.next h hs)
+  have f := step_doneFix (ginv_reach h) w hs u hd
+  refine ⟨f.1, f.2.1, ?_, ?_, ?_, ?_⟩
+  · intro hr; have := (w.running_spec u).mp hr; rw [hd] at this; contradiction
+  · intro hr; have := (w'.running_spec u).mp hr; rw [f.1] at this; contradiction
+  · intro he; subst he; rw [(C01_done_never_runs hd).1] at hs; contradiction
+  · intro he; subst he; rw [(C01_done_never_runs hd).2] at hs; contradiction
+
+/-- In particular no child of an exited group ever runs again. -/
+theorem C01_no_child_step_after_exit {st st' : State} {e : Ev} {o : Out} (h : Reach st)
+    {g u : Nat} (hx : (st.groups g).exited = true) (hu : u ∈ (st.groups g).spawned)
+    (hs : step st e = some (st', o)) :
+    e ≠ .run (.step u) ∧ e ≠ .run (.wakeup u) ∧ (st'.tasks u).st = .done := by
+  have hd := (C01_join h hx hu).1
+  have := C01_done_is_final h hd hs
+  exact ⟨this.2.2.2.2.1, this.2.2.2.2.2, this.1⟩
+
+/-- Nothing can be spawned into a group whose block has ended: `start_soon`/`create_task` raise
+`RuntimeError` and change nothing. -/
+theorem C01_no_spawn_after_exit {st st' : State} {o : Out} (h : Reach st) {g : Nat}
+    (hx : (st.groups g).exited = true) (hs : step st (.spawn g) = some (st', o)) :
+    st' = st ∧ o = .rterr := by
+  have ha := (ginv_reach h |>.g3 g hx).2.1
+  simp only [step] at hs
+  split at hs
+  · contradiction
+  · simp [ha] at hs
+    exact ⟨hs.1.symm, hs.2.symm⟩
+
+/-- The same for `start()`. -/
+theorem C01_no_start_after_exit {st st' : State} {o : Out} (h : Reach st) {g : Nat}
+    (hx : (st.groups g).exited = true) (hs : step st (.start g) = some (st', o)) :
+    st' = st ∧ o = .rterr := by
+  have ha := (ginv_reach h |>.g3 g hx).2.1
+  simp only [step] at hs
+  split at hs
+  · contradiction
+  · split at hs
+    · contradiction
+    · simp [ha] at hs
+      exact ⟨hs.1.symm, hs.2.symm⟩
+
+/-- When the block has ended, every child's `TaskHandle` is final: the finished event is set. -/
+theorem C01_handle_final {st : State} (h : Reach st) {g u : Nat}
+    (hx : (st.groups g).exited = true) (hu : u ∈ (st.groups g).spawned) :
+    (st.tasks u).finished = true := by
+  have hi := ginv_reach h
+  have hd := (C01_join h hx hu).1
+  exact hi.g6 u (hasHandle_reach h u g (hi.g2 g u hu).1) hd
+
+/-- What the handle reports is how the coroutine ended: the segment in which the coroutine of
+an AnyIO child ends with outcome `o` (`.none` = returned) records `o` in the handle, sets the
+finished event, and completes the task. -/
+theorem C01_handle_records_outcome {st st' : State} {o : Outcome} {out : Out} {t hs : Nat}
+    (hr : st.running = some t) (hh : (st.tasks t).hscope = some hs)
+    (hstep : step st (.finish o) = some (st', out)) :
+    (st'.tasks t).hexc = o ∧ (st'.tasks t).finished = true ∧ (st'.tasks t).st = .done := by
+  simp only [step, hr] at hstep
+  split at hstep
+  · contradiction
+  · split at hstep
+    · contradiction
+    · split at hstep
+      · contradiction
+      · rename_i st1 hf
+        simp only [Option.some.injEq, Prod.mk.injEq] at hstep
+        obtain ⟨rfl, _⟩ := hstep
+        unfold finishTask at hf
+        simp only [hh] at hf
+        split at hf
+        · contradiction
+        · rename_i st2 r hex
+          simp only [Option.some.injEq] at hf
+          subst hf
+          obtain ⟨_, _, _, _, c⟩ := exitScope_spec hex
+          have t1 := c.tasks t
+          have t0 := foldl_resolveFut_task (st := st.setTask t (fun x =>
+            { x with hexc := o, finished := true })) (st.tasks t).hwaiters .result t
+          have e1 : ((exitPre ((List.foldl (fun st f => resolveFut st f .result)
+              (st.setTask t (fun x => { x with hexc := o, finished := true }))
+              (st.tasks t).hwaiters).setTask t (fun x => { x with hwaiters := [] })) t hs).tasks t).hexc
+              = o ∧ ((exitPre ((List.foldl (fun st f => resolveFut st f .result)
+              (st.setTask t (fun x => { x with hexc := o, finished := true }))
+              (st.tasks t).hwaiters).setTask t (fun x => { x with hwaiters := [] })) t hs).tasks
+              t).finished = true := by
+            rw [exitPre_task]
+            simp only [if_true, setTask_tasks, upd_same]
+            rw [t0.hexc, t0.finished]
+            simp
+          refine ⟨?_, ?_, ?_⟩
+          · simp only [schedule_tasks, setTask_tasks, upd_same]
+            rw [t1.hexc]; exact e1.1
+          · simp only [schedule_tasks, setTask_tasks, upd_same]
+            rw [t1.finished]; exact e1.2
+          · simp
+
+/-- ... and no later transition changes what the handle of a done task reports. -/
+theorem C01_handle_stable {st st' : State} {e : Ev} {o : Out} (h : Reach st) {u : Nat}
+    (hd : (st.tasks u).st = .done) (hs : step st e = some (st', o)) :
+    (st'.tasks u).finished = (st.tasks u).finished ∧ (st'.tasks u).hexc = (st.tasks u).hexc ∧
+      (st'.tasks u).outcome = (st.tasks u).outcome := by
+  have f := step_doneFix (ginv_reach h) (wf_reach h) hs u hd
+  exact ⟨f.2.2.1, f.2.2.2, f.2.1⟩
+
+/-! ### non-vacuity -/
+
+/-- a group with one child: the host waits in `__aexit__`, the child runs and returns, its
+`task_done` wakes the host, the block ends -/
+example : (runFrom step init
+    [.mkGroup, .groupEnter 0, .spawn 0, .aexit 0 .none, .beginCycle 0, .run (.step 1),
+     .finish .none, .beginCycle 0, .run (.taskDone 1), .beginCycle 0, .run (.wakeup 0)]).map
+    (fun s => ((s.groups 0).exited, (s.groups 0).spawned, (s.tasks 1).st, (s.tasks 1).finished)) =
+    some (true, [1], .done, true) := by decide
+
+/-- before the child's callback has run the block has not ended -/
+example : (runFrom step init
+    [.mkGroup, .groupEnter 0, .spawn 0, .aexit 0 .none, .beginCycle 0, .run (.step 1),
+     .finish .none, .beginCycle 0]).map
+    (fun s => ((s.groups 0).exited, (s.groups 0).tasks, (s.tasks 1).st)) =
+    some (false, [1], .done) := by decide
+
+/-- after the end of the block `start_soon` raises -/
+example : (traceFrom step init
+    [.mkGroup, .groupEnter 0, .spawn 0, .aexit 0 .none, .beginCycle 0, .run (.step 1),
+     .finish .none, .beginCycle 0, .run (.taskDone 1), .beginCycle 0, .run (.wakeup 0),
+     .spawn 0]).map (fun p => p.2.getLast?) = some (some .rterr) := by decide
+
+/-- a child that raises: the handle records the exception -/
+example : (runFrom step init
+    [.mkGroup, .groupEnter 0, .spawn 0, .aexit 0 .none, .beginCycle 0, .run (.step 1),
+     .finish (.one (.err 7))]).map (fun s => ((s.tasks 1).hexc, (s.tasks 1).finished)) =
+    some (.one (.err 7), true) := by decide
+
+end AnyioModel.Kernel
